@@ -126,6 +126,14 @@ func (c *Ctx) routerFlows() []*routerFlow {
 										mark(sc.Params[i])
 									}
 								}
+								// a constructor that hands the router back
+								if cv, ok := ci.(ssa.Value); ok && isMuxRouterPtr(cv.Type()) {
+									for _, r := range returnsOf(sc) {
+										if len(r.Results) == 1 && fl.derived[r.Results[0]] {
+											mark(cv)
+										}
+									}
+								}
 							} else if !com.IsInvoke() {
 								// a function value (e.g. a table of route registrars): the callees the call graph resolves
 								passes := false
@@ -654,7 +662,10 @@ func (c *Ctx) authInstallSSA(use ssa.CallInstruction) (bool, string) {
 	if a := isAuthCall(m); a != nil {
 		return c.authUseGuard(use.Parent(), use.Pos())
 	}
-	// element of a chain
+	// element of a chain (possibly converted to the router's middleware type)
+	if ct, ok := m.(*ssa.ChangeType); ok {
+		m = ct.X
+	}
 	var sl ssa.Value
 	if u, ok := m.(*ssa.UnOp); ok && u.Op == token.MUL {
 		if ia, ok := u.X.(*ssa.IndexAddr); ok {
